@@ -24,7 +24,7 @@ ENGINE = "net"
 LEVEL = "exploration"
 TECHNIQUE = ("deterministic simulation: seeded operation histories against a real FileDescriptor whose OS write "
              "accepts a tape-chosen number of bytes (incl. zero / connection lost); reference model of the byte stream and producer protocol")
-QUICK_RUNS = 50000
+QUICK_RUNS = 46000
 TWIN_P = 0.08   # this share of the runs drives two independent instances of the scenario one after the other (detsim.runner._run_scenario)
 USES_DEPTH = True   # thorough tier: history length bound scales with sim.depth (1..3) beyond the quick tier\'s run indices
 BATCH = 250
@@ -35,17 +35,24 @@ COMPONENTS = {
              "twisted.internet.posixbase._DisconnectSelectableMixin._disconnectSelectable"],
     "stub": ["writeSomeData (the OS: tape-chosen accepted count or ConnectionLost)",
              "IReactorFDSet (records add/removeWriter; scheduler calls doWrite only while registered)",
-             "scripted push and pull producers"],
+             "scripted push and pull producers",
+             "the application's list objects (kept, edited, passed again, passed to both descriptors)"],
 }
 RULE = ("run = 5..60 tape-chosen operations (write 0 B..1 MiB, writeSequence of list/tuple/one-shot iterator, doWrite, register/unregister "
-        "streaming or pull producer, producer-driven writes, loseConnection, loseWriteConnection) with per-run bufferSize / SEND_LIMIT / "
-        "acceptance policy / error rate, then a drain; non-trivial = at least one short (partial or zero) OS write happened AND "
-        "(a producer was paused/resumed, or a close/half-close completed, or a write error fired)")
+        "streaming or pull producer, producer-driven writes, loseConnection, loseWriteConnection) with per-descriptor bufferSize / SEND_LIMIT / "
+        "acceptance policy / error rate, then a drain; in 3 of 4 runs the application treats the lists it passed to writeSequence as its own "
+        "(edits them right after the call, keeps one and passes it again as is / refilled / extended); in 1 of 5 runs the operations are spread "
+        "over two live descriptors which are also handed the same list objects (broadcast right after the first call, or later); "
+        "non-trivial = at least one short (partial or zero) OS write happened AND "
+        "(a producer was paused/resumed, or a close/half-close completed, or a write error fired) on one descriptor")
 ASSUMPTIONS = [
     "writes issued between loseWriteConnection() and the completed half-close get no verdict (may or may not be sent, but never out of order)",
     "pause is checked at write time (the first write that leaves the true backlog > bufferSize), not at producer registration",
     "the close-under-pull-producer clause gives no verdict once the write side has been shut down",
     "SEND_LIMIT >= 1",
+    "what writeSequence(list) writes is what the application put into that list before the call (the model keeps its own record of the "
+    "content of the application's lists; nothing but the application is supposed to change them), whatever happens to the list afterwards",
+    "the two live descriptors of a run are independent connections: bytes written to one never count as written to the other",
 ]
 LEVEL_NOTE = ("second configuration of the design (same generator against tcp.Connection on a kernel model) is not part of this module; "
               "the descriptor here is the abstract base class every stream transport inherits its buffering from")
@@ -53,6 +60,8 @@ LEVEL_NOTE = ("second configuration of the design (same generator against tcp.Co
 # One-shot iterators as writeSequence arguments (ITransport.writeSequence takes an Iterable[bytes]).
 # VERIF_C14_ITER=0 takes them out of the generator (dev-time: lets mutant runs see past the finding below).
 ITERATOR_IOVEC = os.environ.get("VERIF_C14_ITER", "1") != "0"
+# share of the runs with a second live descriptor (own knobs / OS / model) whose operations interleave with the first one's
+TWO_DESCRIPTORS_P = 0.2
 
 _ROT = bytes(range(256)) * 2
 # 1.6 MiB; byte k = (k + 37*(k>>8) + 91*(k>>16)) mod 256: neighbouring bytes always differ and a
@@ -128,15 +137,18 @@ class Producer:
 
     def stopProducing(self):
         self.stops += 1
-        self.h.sim.event("producer", self.pid, "stop")
+        self.h.ev("producer", self.pid, "stop")
 
 
 class Harness:
     """Scenario driver + reference model."""
 
-    def __init__(self, sim):
+    def __init__(self, sim, app, tag="", g0=0):
         self.sim = sim
-        self.g = 0                       # next unused PATTERN position
+        self.app = app                   # the application's state shared by all descriptors of the run (its kept lists)
+        self.tag = tag                   # "" = the first descriptor, "peer" = the second live descriptor of the run
+        self.peer = None                 # the other live descriptor's harness, if the run has two
+        self.g = g0                      # next unused PATTERN position
         # ---- reference model
         self.connected = True
         self.lose_called = False
@@ -158,6 +170,13 @@ class Harness:
         self.special = 0
         self.npid = 0
         self.lost_reasons = []
+        self.after_lost = 0
+
+    def ev(self, *fields):
+        if self.tag:
+            self.sim.event(self.tag, *fields)
+        else:
+            self.sim.event(*fields)
 
     # ------------------------------------------------------------ data
     def take(self, n):
@@ -222,11 +241,15 @@ class Harness:
         if sim.draw_bool(0.25, "seq"):
             k = sim.draw_int(1, 4, "nparts")
             cuts = sorted(sim.draw_int(0, n, "cut") for _ in range(k - 1))
+            g0 = self.g
             data = self.take(n)
             parts = [data[a:b] for a, b in zip([0] + cuts, cuts + [len(data)])]
             kinds = ["list", "tuple"] + (["iter"] if (ITERATOR_IOVEC and self.iter_ok) else [])
             kind = sim.draw_choice(kinds, "iovec")
-            sim.event(who, "writeSequence", kind, *[len(p) for p in parts])
+            if kind == "list" and self.app.lists_ok:
+                self.g = g0
+                return self.do_write_list(who, n, cuts)
+            self.ev(who, "writeSequence", kind, *[len(p) for p in parts])
             self.note_write(parts, lost_if_iter=(kind == "iter"))
             if kind == "iter":
                 sim.probe("writeSequence_iterator")
@@ -235,11 +258,112 @@ class Harness:
                 self.fd.writeSequence(arg)
         else:
             data = self.take(n)
-            sim.event(who, "write", len(data))
+            self.ev(who, "write", len(data))
             self.note_write([data])
             with sim.guard("write-raised", "write"):
                 self.fd.write(data)
         self.after_write(who, len(data))
+
+    # ------------------------------------------------------------ writeSequence(list): the list stays the caller's
+    # The application owns the list object it passes: it may keep it, edit it, refill it and pass it again, to this
+    # descriptor or to another one.  What a writeSequence() call writes is what the list held when the call was made;
+    # the reference model keeps its own record (`content`) of what the application put into each of its lists.
+    def fresh_parts(self, n, cuts):
+        data = self.take(n)
+        cuts = [min(c, len(data)) for c in cuts]
+        return [data[a:b] for a, b in zip([0] + cuts, cuts + [len(data)])]
+
+    def write_list(self, who, kept):
+        """one writeSequence(<the application's list>) call on this descriptor + its model"""
+        lst, content = kept
+        nbytes = sum(len(c) for c in content)
+        self.ev(who, "writeSequence", "list", *[len(c) for c in content])
+        self.note_write(list(content))
+        with self.sim.guard("write-raised", "writeSequence"):
+            self.fd.writeSequence(lst)
+        self.after_write(who, nbytes)
+
+    def edit_list(self, who, kept, how):
+        """the application edits its own list (after some writeSequence(list) call returned)"""
+        lst, content = kept
+        self.ev(who, "list", how)
+        if how == "clear":
+            lst.clear()
+            content.clear()
+        elif how == "del":
+            del lst[:]
+            del content[:]
+        elif how == "append":
+            extra = self.take(self.sim.draw_int(1, 8, "extra"))
+            lst.append(extra)
+            content.append(extra)
+        elif how == "insert":
+            extra = self.take(self.sim.draw_int(1, 8, "extra"))
+            lst.insert(0, extra)
+            content.insert(0, extra)
+        elif how == "replace":
+            if lst:
+                extra = self.take(self.sim.draw_int(1, 8, "extra"))
+                lst[-1] = extra
+                content[-1] = extra
+        elif how == "pop":
+            if lst:
+                lst.pop()
+                content.pop()
+        elif how == "reverse":
+            lst.reverse()
+            content.reverse()
+
+    def do_write_list(self, who, n, cuts):
+        sim = self.sim
+        app = self.app
+        kept = app.kept
+        source = sim.draw_weighted([("fresh", 6), ("refill", 2 if kept else 0), ("same", 2 if kept else 0),
+                                    ("extend", 1 if kept else 0)], "list_source")
+        if source == "fresh":
+            parts = self.fresh_parts(n, cuts)
+            kept = (list(parts), list(parts))
+        else:
+            # a list object that was already passed to writeSequence() earlier in the run (here or on the other descriptor)
+            sim.probe("list_object_written_again")
+            if kept[2] is not self:
+                sim.probe("list_object_written_to_both_descriptors")
+            lst, content = kept[0], kept[1]
+            if source == "refill":
+                parts = self.fresh_parts(n, cuts)
+                how = sim.draw_choice(["slice", "clear_extend", "del_iadd"], "refill_how")
+                if how == "slice":
+                    lst[:] = parts
+                elif how == "clear_extend":
+                    lst.clear()
+                    lst.extend(parts)
+                else:
+                    del lst[:]
+                    lst += parts
+                content[:] = parts
+            elif source == "extend":
+                parts = self.fresh_parts(n, cuts)
+                lst.extend(parts)
+                content.extend(parts)
+            kept = (lst, content)
+        self.write_list(who, kept)
+        # afterwards: hand the very same list to the other live descriptor too (`for t in transports: t.writeSequence(chunks)`),
+        # and/or edit it; all of it before any doWrite
+        for _ in range(3):
+            then = sim.draw_weighted([("nothing", 6), ("peer", 4 if self.peer is not None else 0), ("clear", 2), ("append", 2), ("del", 1),
+                                      ("insert", 1), ("replace", 1), ("pop", 1), ("reverse", 1)], "list_then")
+            if then == "nothing":
+                break
+            if then == "peer":
+                sim.probe("list_object_written_to_both_descriptors")
+                self.peer.write_list(who, kept)
+            else:
+                sim.probe("list_edited_after_writeSequence")
+                self.edit_list(who, kept, then)
+        if sim.draw_bool(0.5, "keep_list"):
+            app.kept = (kept[0], kept[1], self)
+        elif app.kept is not None and app.kept[0] is kept[0]:
+            app.kept = None
 
     # ------------------------------------------------------------ the OS
     def os_write(self, data):
@@ -257,7 +381,7 @@ class Harness:
         # an iterator span whose first byte was just offered correctly is confirmed
         self.iter_spans = [(a, b) for (a, b) in self.iter_spans if not (a < self.acc + n)]
         if not n:
-            sim.event("os", "offer0")
+            self.ev("os", "offer0")
             sim.probe("empty_os_write")
         if self.flush:
             k = n
@@ -266,7 +390,7 @@ class Harness:
             if kind == "err":
                 self.error_fired = True
                 sim.fault("write_error")
-                sim.event("os", "offer", n, "ERROR")
+                self.ev("os", "offer", n, "ERROR")
                 return main.CONNECTION_LOST
             if kind == "all" or n == 0:
                 k = n
@@ -285,7 +409,7 @@ class Harness:
             sim.fault("short_write")
             if k == 0:
                 sim.fault("zero_write")
-        sim.event("os", "offer", n, "accept", k)
+        self.ev("os", "offer", n, "accept", k)
         self.acc += k
         return k
 
@@ -340,7 +464,7 @@ class Harness:
     # ------------------------------------------------------------ callbacks from the descriptor
     def on_half_closed(self):
         sim = self.sim
-        sim.event("fd", "half-closed")
+        self.ev("fd", "half-closed")
         sim.probe("half_close_completed")
         self.special += 1
         self.missing("half-close-after-flush", self.acc >= len(self.expected), "halfclose",
@@ -352,7 +476,7 @@ class Harness:
         sim = self.sim
         self.lost_reasons.append(reason)
         clean = reason.check(error.ConnectionDone) is not None and not self.error_fired
-        sim.event("fd", "connectionLost", reason.type.__name__)
+        self.ev("fd", "connectionLost", reason.type.__name__)
         sim.check("lost-once", len(self.lost_reasons) == 1, "connectionLost", "connectionLost delivered %d times" % len(self.lost_reasons))
         p = self.producer
         if clean:
@@ -378,7 +502,7 @@ class Harness:
     def on_resume(self, p):
         sim = self.sim
         p.resumes += 1
-        sim.event("producer", p.pid, "resume", "streaming" if p.streaming else "pull")
+        self.ev("producer", p.pid, "resume", "streaming" if p.streaming else "pull")
         if not p.current:
             sim.probe("call_on_former_producer")
             return
@@ -411,7 +535,7 @@ class Harness:
                     # the producer writes its last chunk and unregisters within the same resumeProducing() call
                     sim.probe("pull_final_chunk_and_unregister_in_one_call")
                     self.do_write("pull%d" % p.pid)
-                sim.event("producer", p.pid, "finish")
+                self.ev("producer", p.pid, "finish")
                 p.current = False
                 self.producer = None
                 self.fd.unregisterProducer()
@@ -428,7 +552,7 @@ class Harness:
 
     def on_pause(self, p):
         p.pauses += 1
-        self.sim.event("producer", p.pid, "pause")
+        self.ev("producer", p.pid, "pause")
         if p.current:
             if not p.paused:
                 self.sim.probe("streaming_paused")
@@ -436,7 +560,7 @@ class Harness:
 
     # ------------------------------------------------------------ operations
     def do_lose(self):
-        self.sim.event("app", "loseConnection")
+        self.ev("app", "loseConnection")
         if self.connected and not self.lose_called:
             self.lose_called = True
             self.lose_mark = len(self.expected)
@@ -444,7 +568,7 @@ class Harness:
             self.fd.loseConnection()
 
     def do_lose_write(self):
-        self.sim.event("app", "loseWriteConnection")
+        self.ev("app", "loseWriteConnection")
         self.lw_called = True
         with self.sim.guard("loseWriteConnection-raised"):
             self.fd.loseWriteConnection()
@@ -454,7 +578,7 @@ class Harness:
         streaming = sim.draw_bool(0.5, "streaming")
         self.npid += 1
         p = Producer(self, streaming, self.npid)
-        sim.event("app", "registerProducer", p.pid, "streaming" if streaming else "pull")
+        self.ev("app", "registerProducer", p.pid, "streaming" if streaming else "pull")
         sim.probe("register_streaming" if streaming else "register_pull")
         if self.connected:
             self.producer = p
@@ -469,7 +593,7 @@ class Harness:
 
     def do_unregister(self):
         p = self.producer
-        self.sim.event("app", "unregisterProducer", p.pid)
+        self.ev("app", "unregisterProducer", p.pid)
         p.current = False
         self.producer = None
         with self.sim.guard("unregisterProducer-raised"):
@@ -477,7 +601,7 @@ class Harness:
 
     def do_dowrite(self):
         sim = self.sim
-        sim.event("reactor", "doWrite")
+        self.ev("reactor", "doWrite")
         self.in_dowrite = True
         try:
             with sim.guard("doWrite-raised"):
@@ -503,76 +627,81 @@ class Harness:
                    min(self.backlog, 3), self.reactor.writing))
 
 
-def run(sim):
-    h = Harness(sim)
+class App:
+    """what the application keeps across operations, whichever descriptor it is talking to"""
+
+    def __init__(self, lists_ok):
+        self.lists_ok = lists_ok
+        self.kept = None     # (list object passed to writeSequence earlier, the model's record of its content, harness it was last written to)
+
+
+def configure(sim, h, primary):
+    """per-descriptor knobs (the second descriptor of a run draws its own)"""
     buffer_size = sim.draw_choice([16, 0, 1, 5, 64, 1024, 65536], "bufferSize")
     send_limit = sim.draw_choice([128 * 1024, 1, 2, 7, 32, 128], "SEND_LIMIT")
     accept_mode = sim.draw_choice(["all", "generous", "stingy", "limit"], "accept_mode")
     err_w = sim.draw_choice([0, 0, 0, 1, 4], "err_weight")
     h.os_limit = sim.draw_choice([1, 3, 16, 512], "os_limit")
-    nops = sim.draw_int(5, 60 * sim.depth, "nops")
-    h.big_ok = sim.draw_bool(0.3, "big_ok")
-    h.huge_ok = sim.draw_bool(0.04, "huge_ok")
+    h.big_ok = sim.draw_bool(0.3 if primary else 0.1, "big_ok")
+    h.huge_ok = sim.draw_bool(0.04, "huge_ok") if primary else False
     h.iter_ok = sim.draw_bool(0.3, "iter_ok")
     h.pull_finish_p = sim.draw_choice([0.2, 0.05, 0.5], "pull_finish_p")
     h.push_writes_on_resume = sim.draw_bool(0.5, "push_writes_on_resume")
-    lw_ok = sim.draw_bool(0.35, "lw_ok")
+    h.lw_ok = sim.draw_bool(0.35, "lw_ok")
     h.accept_weights = {
         "all": [("all", 1), ("err", 0)],
         "generous": [("all", 8), ("some", 3), ("zero", 1), ("one", 1), ("limit", 1), ("err", err_w)],
         "stingy": [("all", 1), ("some", 5), ("zero", 4), ("one", 5), ("limit", 2), ("err", err_w)],
         "limit": [("limit", 12), ("zero", 2), ("some", 1), ("err", err_w)],
     }[accept_mode]
-    sim.config = {"bufferSize": buffer_size, "SEND_LIMIT": send_limit, "accept": accept_mode, "err_weight": err_w,
-                  "os_limit": h.os_limit, "nops": nops, "iter_ok": h.iter_ok, "lw_ok": lw_ok}
     h.reactor = FakeFDSet()
     h.fd = fd = SimFD(h.reactor, h)
     fd.bufferSize = buffer_size
     fd.SEND_LIMIT = send_limit
+    return {"bufferSize": buffer_size, "SEND_LIMIT": send_limit, "accept": accept_mode, "err_weight": err_w,
+            "os_limit": h.os_limit, "iter_ok": h.iter_ok, "lw_ok": h.lw_ok}
 
-    after_lost = 0
-    for _ in range(nops):
-        sim.step(2000 * sim.depth)
-        p = h.producer
-        ops = [
-            ("write", 6),
-            ("doWrite", 9 if h.reactor.writing else 0),
-            ("register", 2 if (p is None) else 0),
-            ("unregister", 1 if (p is not None) else 0),
-            ("produce", 5 if (p is not None and p.streaming and not p.paused and h.connected) else 0),
-            ("lose", 1 if not h.lose_called else 0),
-            ("loseWrite", 1 if (lw_ok and not h.lw_called and h.connected) else 0),
-        ]
-        op = sim.draw_weighted(ops, "op")
-        if op == "write":
-            h.do_write("app")
-        elif op == "doWrite":
-            h.do_dowrite()
-        elif op == "register":
-            h.do_register()
-        elif op == "unregister":
-            h.do_unregister()
-        elif op == "produce":
-            h.do_write("push%d" % p.pid)
-        elif op == "lose":
-            h.do_lose()
-        elif op == "loseWrite":
-            h.do_lose_write()
-        h.invariants()
-        if not h.connected:
-            after_lost += 1
-            if after_lost > 3:
-                break
 
-    # drain: the scheduler keeps serving write-readiness; pull producers finish at their next turn
-    h.draining = True
+def one_op(sim, h):
+    p = h.producer
+    ops = [
+        ("write", 6),
+        ("doWrite", 9 if h.reactor.writing else 0),
+        ("register", 2 if (p is None) else 0),
+        ("unregister", 1 if (p is not None) else 0),
+        ("produce", 5 if (p is not None and p.streaming and not p.paused and h.connected) else 0),
+        ("lose", 1 if not h.lose_called else 0),
+        ("loseWrite", 1 if (h.lw_ok and not h.lw_called and h.connected) else 0),
+    ]
+    op = sim.draw_weighted(ops, "op")
+    if op == "write":
+        h.do_write("app")
+    elif op == "doWrite":
+        h.do_dowrite()
+    elif op == "register":
+        h.do_register()
+    elif op == "unregister":
+        h.do_unregister()
+    elif op == "produce":
+        h.do_write("push%d" % p.pid)
+    elif op == "lose":
+        h.do_lose()
+    elif op == "loseWrite":
+        h.do_lose_write()
+    h.invariants()
+    if not h.connected:
+        h.after_lost += 1
+
+
+def drain(sim, h):
+    """the scheduler keeps serving write-readiness; pull producers finish at their next turn"""
     n = 0
     for rnd in (0, 1):
         if h.producer is not None and (h.producer.streaming or rnd == 1):
             h.do_unregister()          # the application's producer is finished
             h.invariants()
         while h.reactor.writing and h.connected:
-            sim.step(4000 * sim.depth)
+            sim.step(8000 * sim.depth)
             n += 1
             if n > 40:
                 h.flush = True     # from here on the OS accepts everything it is offered
@@ -587,7 +716,40 @@ def run(sim):
                   "descriptor idle and connected with %d bytes never handed to the OS" % (len(h.expected) - h.acc))
         if h.lose_called:
             sim.fail("never-closed", "quiescent", "loseConnection called, everything flushed, no producer, but the connection never closed")
-    sim.nontrivial = bool(h.short_writes and h.special)
+
+
+def run(sim):
+    nops = sim.draw_int(5, 60 * sim.depth, "nops")
+    lists_ok = not sim.draw_bool(0.25, "lists_never_touched_again")
+    two = sim.draw_bool(TWO_DESCRIPTORS_P, "two_descriptors")
+    app = App(lists_ok)
+    h = Harness(sim, app)
+    sim.config = configure(sim, h, True)
+    sim.config.update({"nops": nops, "lists_ok": lists_ok, "two_descriptors": two})
+    hs = [h]
+    if two:
+        # a second live descriptor with its own knobs, OS and reference model, driven in between the first one's operations
+        sim.probe("two_live_descriptors")
+        peer = Harness(sim, app, "peer", 700001)
+        sim.config["peer"] = configure(sim, peer, False)
+        h.peer, peer.peer = peer, h
+        hs.append(peer)
+
+    for _ in range(nops):
+        sim.step(2000 * sim.depth)
+        live = [x for x in hs if x.after_lost <= 3]
+        if not live:
+            break
+        x = live[0]
+        if len(live) == 2 and sim.draw_weighted([(0, 3), (1, 2)], "which"):
+            x = live[1]
+        one_op(sim, x)
+
+    for x in hs:
+        x.draining = True
+    for x in hs:
+        drain(sim, x)
+    sim.nontrivial = any(x.short_writes and x.special for x in hs)
 
 
 # Sensitivity (tools/mutate.py C14 --sub src/twisted/internet/abstract.py ..., run with VERIF_C14_ITER=0 so the
@@ -604,5 +766,9 @@ MUTANTS = [
     "loseConnection: no startWriting -> CAUGHT (close-pending-but-idle)",
     "write: accept data when not connected -> CAUGHT (offered-in-order:more-than-written / lost-once)",
     "writeSequence: _tempDataLen not increased -> CAUGHT (close-after-flush / pause-when-full)",
+    "writeSequence: pending buffer bound to the caller's list object when empty (no copy) -> CAUGHT (offered-in-order:more-than-written / "
+    "registered-while-pending; by the list-edit family alone and by the two-descriptor family alone)",
+    "writeSequence: a list argument is queued as one element (no copy) and flattened only by doWrite's merge -> CAUGHT "
+    "(offered-in-order / registered-while-pending)",
     "doWrite: `elif self.disconnecting and not self._tempDataLen` -> survives (equivalent: _tempDataLen is 0 in that branch)",
 ]
